@@ -61,6 +61,8 @@ fn gen_case(rng: &mut Rng) -> Case {
     for f in ["a", "b", "c"] { if rng.chance(1, 2) { groups.push(two(rng, "--cfg", &format!("feature=\"{}\"", f))); } }
     if rng.chance(1, 2) { groups.push({ let v_ = *rng.pick(&["opt-level=2", "opt-level=0", "debuginfo=1", "metadata=abc", "extra-filename=-x1"]); two(rng, "-C", v_) }); }
     if rng.chance(1, 3) { groups.push(two(rng, "--cap-lints", "allow")); }
+    // lint levels: rustc applies them in command-line order (`-D x -A x` allows, `-A x -D x` denies), so their order is part of the request
+    if rng.chance(1, 2) { for _ in 0..(1 + rng.below(3)) { let f = *rng.pick(&["-A", "-W", "-D", "-F"]); let l = *rng.pick(&["unused_variables", "dead_code", "warnings"]); groups.push(two(rng, f, l)); } }
     if rng.chance(1, 3) { groups.push({ let v_ = *rng.pick(&["always", "never"]); two(rng, "--color", v_) }); }
     if rng.chance(1, 4) { groups.push(two(rng, "--error-format", "json")); }
     if rng.chance(1, 4) { groups.push(two(rng, "--target", "x86_64-unknown-linux-gnu")); }
@@ -174,6 +176,12 @@ fn main() {
                         let mut env2 = case.env.clone(); env2.push((b"UNRELATED2".to_vec(), b"y".to_vec())); env2.retain(|(k, _)| k != b"CARGO_MAKEFLAGS" && k != b"CARGO_REGISTRIES_ALT_TOKEN"); env2.push((b"CARGO_MAKEFLAGS".to_vec(), format!("-j{}", ci).into_bytes()));
                         let c2 = Case { argv: case.argv.clone(), env: env2 };
                         if let Some(k2) = key_of(&c2, &mut reqs, &mut keys) { if k2 != k { fails.push(fail_json("irrelevant_env_changes_key", &format!("{}  ||  {}", show(&case), show(&c2)), &[], "")); } } }
+                    4 if ci % 14 == 4 => { // two lint levels for one lint, in both orders: different compiles, different keys
+                        let mut a1 = case.argv.clone(); a1.extend([b"-D".to_vec(), b"unused_mut".to_vec(), b"-A".to_vec(), b"unused_mut".to_vec()]);
+                        let mut a2 = case.argv.clone(); a2.extend([b"-A".to_vec(), b"unused_mut".to_vec(), b"-D".to_vec(), b"unused_mut".to_vec()]);
+                        let (c1, c2) = (Case { argv: a1, env: case.env.clone() }, Case { argv: a2, env: case.env.clone() });
+                        let (k1, k2) = (key_of(&c1, &mut reqs, &mut keys), key_of(&c2, &mut reqs, &mut keys));
+                        if k1.is_some() && k1 == k2 { fails.push(fail_json("lint_order_ignored", &format!("`-D unused_mut -A unused_mut` and `-A unused_mut -D unused_mut` (rustc: allowed / denied) share a key: {}  ||  {}", show(&c1), show(&c2)), &[], "")); } }
                     4 => { // a hashed argument changes
                         let mut argv2 = case.argv.clone(); argv2.push(b"-Ccodegen-units=3".to_vec());
                         let c2 = Case { argv: argv2, env: case.env.clone() };
